@@ -124,12 +124,30 @@ theorem rd_cons (env : Env) (fuel : Nat) (f : Field) (fs : List Field) (v : Val)
               | some ifs => Val.struct (resetDefault env fuel ifs inner)
               | none => v
             | _, _ => v)
+         | .arr n (.struct s) =>
+           (match env.find s with
+            | some ifs =>
+              Val.list (List.replicate n
+                (Val.struct (resetDefault env fuel ifs (ifs.map fun g => zeroOf env g.ty))))
+            | none => zeroOf env f.ty)
          | t => zeroOf env t) :: resetDefault env (fuel+1) fs vs := by
   conv => lhs; unfold resetDefault
   rfl
 
+theorem shapeMembers_zero {env : Env} (hwf : EnvClosed env) : ∀ fs : List Field,
+    (∀ f, f ∈ fs → TyClosed env f.ty) → ShapeMembers env fs (fs.map fun g => zeroOf env g.ty) := by
+  intro fs
+  induction fs with
+  | nil => intro _; exact ShapeMembers.nilL
+  | cons g gs ih =>
+    intro hc
+    simp only [List.map_cons]
+    exact ShapeMembers.cons (shape_zeroOf hwf (hc g List.mem_cons_self))
+      (ih (fun f hf => hc f (List.mem_cons_of_mem _ hf)))
+
 /-- `ResetDefault` keeps a well-shaped target well-shaped: explicit defaults have the member's
-    shape, nested structs are reset recursively, every other member becomes its zero value -/
+    shape, nested structs are reset recursively, elements of an array of structs take the
+    struct's defaults, every other member becomes its zero value -/
 theorem shape_resetDefault {env : Env} (hwf : EnvClosed env) : ∀ (fuel : Nat) (fs : List Field) (vs : List Val),
     (∀ f, f ∈ fs → TyClosed env f.ty) →
     (∀ f, f ∈ fs → ∀ d, f.dflt = some d → Shape env f.ty d) → ShapeMembers env fs vs →
@@ -166,6 +184,14 @@ theorem shape_resetDefault {env : Env} (hwf : EnvClosed env) : ∀ (fuel : Nat) 
                 exact Shape.struct hfs0
                   (ihf fs0 _ (hwf.closed name fs0 hfs0) (hwf.dflt name fs0 hfs0) hm)
               · exact hv
+            · rename_i n s hty
+              split
+              · rename_i ifs hfind
+                rw [hty]
+                exact Shape.arr (shapeAll_replicate
+                  (Shape.struct hfind (ihf ifs _ (hwf.closed s ifs hfind) (hwf.dflt s ifs hfind)
+                    (shapeMembers_zero hwf ifs (hwf.closed s ifs hfind)))) n)
+              · exact shape_zeroOf hwf (hc f List.mem_cons_self)
             · exact shape_zeroOf hwf (hc f List.mem_cons_self)
 
 
